@@ -14,6 +14,7 @@ import (
 	"math/big"
 	"reflect"
 	"strings"
+	"sync"
 
 	logger "github.com/ElrondNetwork/elrond-go-logger"
 	"github.com/ElrondNetwork/elrond-go/consensus"
@@ -40,6 +41,7 @@ type protoMsg interface {
 	Unmarshal([]byte) error
 	Equal(interface{}) bool
 	Size() int
+	Reset()
 }
 
 var bigT = reflect.TypeOf(&big.Int{})
@@ -48,7 +50,7 @@ var bigT = reflect.TypeOf(&big.Int{})
 // allocates differently (spare capacity) so that equal values do not share memory layout
 type filler struct {
 	rng      *vk.Rand
-	style    int // 0 sparse, 1 normal, 2 dense, 3 boundary
+	style    int // 0 sparse, 1 normal, 2 dense, 3 boundary, 4 all-default (nothing is set), 5 mostly default (a leaf is set with probability 1/10)
 	spareCap bool
 	sig      *strings.Builder
 }
@@ -111,6 +113,14 @@ func (f *filler) str() string {
 }
 
 func (f *filler) fill(v reflect.Value, depth int) {
+	if f.style == 4 {
+		f.note("D")
+		return
+	}
+	if f.style == 5 && v.Kind() != reflect.Struct && !f.rng.Chance(1, 10) {
+		f.note("d")
+		return
+	}
 	switch v.Kind() {
 	case reflect.Ptr:
 		if v.Type() == bigT {
@@ -320,6 +330,7 @@ func main() {
 		r.Finish()
 	}
 	m := &marshal.GogoProtoMarshalizer{}
+	var zeroLenSeen, zeroLenReuse sync.Map
 
 	perType := r.N(700, 50000)
 	r.Parallel(len(types)*perType, func(c *vk.Case) {
@@ -327,7 +338,11 @@ func main() {
 		rt := reflect.TypeOf(proto).Elem()
 		tname := rt.String()
 		seed := c.Rng.U64()
-		style := c.Rng.Intn(4)
+		pickStyle := func() int {
+			// 0..3 populated styles, 4 all-default, 5 mostly default: a third of the values is (nearly) default
+			return []int{0, 1, 2, 3, 1, 2, 4, 4, 5}[c.Rng.Intn(9)]
+		}
+		style := pickStyle()
 		var sig strings.Builder
 		x := reflect.New(rt)
 		(&filler{rng: vk.NewRand(seed), style: style, sig: &sig}).fill(x.Elem(), 0)
@@ -335,6 +350,14 @@ func main() {
 		(&filler{rng: vk.NewRand(seed), style: style, spareCap: true}).fill(x2.Elem(), 0)
 		obj := x.Interface().(protoMsg)
 		twin := x2.Interface().(protoMsg)
+		// a second, unrelated value of the same type: the previous content of reused decode targets
+		otherSeed := c.Rng.U64()
+		otherStyle := pickStyle()
+		newOther := func() protoMsg {
+			w := reflect.New(rt)
+			(&filler{rng: vk.NewRand(otherSeed), style: otherStyle}).fill(w.Elem(), 0)
+			return w.Interface().(protoMsg)
+		}
 		key := func(class string) string { return "type=" + tname + " class=" + class }
 		detail := func(extra map[string]interface{}) map[string]interface{} {
 			d := map[string]interface{}{"type": tname, "value": fmt.Sprintf("%+v", obj), "fill_seed": seed, "style": style}
@@ -368,6 +391,8 @@ func main() {
 			if sz := obj.Size(); sz != len(b1) {
 				r.Violation(c.Idx, key("size-mismatch"), fmt.Sprintf("%s: Size()=%d, encoded length %d", tname, sz, len(b1)), detail(map[string]interface{}{"bytes": vk.Hex(b1)}))
 			}
+			// ---- fresh target, through the marshalizer and through the generated method
+			freshOK := true
 			y := reflect.New(rt).Interface().(protoMsg)
 			r.Eval(1)
 			if err = m.Unmarshal(y, b1); err != nil {
@@ -375,32 +400,124 @@ func main() {
 				return
 			}
 			if !obj.Equal(y) || !y.Equal(obj) {
+				freshOK = false
 				r.Violation(c.Idx, key("roundtrip-not-equal"), fmt.Sprintf("%s: decoded value differs: in=%+v out=%+v", tname, obj, y), detail(map[string]interface{}{"bytes": vk.Hex(b1), "decoded": fmt.Sprintf("%+v", y)}))
 			}
 			b4, err4 := m.Marshal(y)
 			r.Eval(1)
 			if err4 != nil || !bytes.Equal(b1, b4) {
+				freshOK = false
 				r.Violation(c.Idx, key("remarshal-differs"), fmt.Sprintf("%s: re-encoding the decoded value gives %x instead of %x (%v)", tname, b4, b1, err4), detail(map[string]interface{}{"bytes": vk.Hex(b1), "again": vk.Hex(b4)}))
+			}
+			yd := reflect.New(rt).Interface().(protoMsg)
+			r.Eval(1)
+			if err = yd.Unmarshal(b1); err != nil {
+				r.Violation(c.Idx, key("unmarshal-error"), fmt.Sprintf("%s: generated Unmarshal (fresh target) of own encoding %x: %v", tname, b1, err), detail(map[string]interface{}{"bytes": vk.Hex(b1), "path": "generated"}))
+			} else if !obj.Equal(yd) || !yd.Equal(obj) {
+				freshOK = false
+				r.Violation(c.Idx, key("roundtrip-not-equal"), fmt.Sprintf("%s: generated Unmarshal into a fresh target differs: in=%+v out=%+v", tname, obj, yd), detail(map[string]interface{}{"bytes": vk.Hex(b1), "decoded": fmt.Sprintf("%+v", yd), "path": "generated"}))
 			}
 			// the encoding must still be the same after all of the above (the value was not mutated)
 			b5, _ := m.Marshal(obj)
 			if !bytes.Equal(b1, b5) {
 				r.Violation(c.Idx, key("nondeterministic"), fmt.Sprintf("%s: encoding changed after decode/compare: %x then %x", tname, b1, b5), detail(nil))
 			}
-			r.Count("roundtrips."+tname, 1)
-			r.Max("max_encoded_len", int64(len(b1)))
-			if len(b1) == 0 {
-				r.Trivial()
+
+			// ---- reused targets, through the marshalizer only: GogoProtoMarshalizer.Unmarshal resets the
+			// target before decoding, the generated Unmarshal alone merges and promises nothing of the kind
+			other := newOther()
+			bo, errO := m.Marshal(other)
+			if errO != nil {
+				r.Violation(c.Idx, key("marshal-error"), fmt.Sprintf("%s: Marshal: %v", tname, errO), map[string]interface{}{"type": tname, "value": fmt.Sprintf("%+v", other)})
 				return
 			}
-			r.ShapeHash(tname, sig.String())
+			bo = append([]byte{}, bo...)
+			valClass := func(b []byte, st int) string {
+				switch {
+				case len(b) == 0:
+					return "zero-length"
+				case st >= 4:
+					return "mostly-default"
+				}
+				return "populated"
+			}
+			xc, oc := valClass(b1, style), valClass(bo, otherStyle)
+			if freshOK {
+				reuse := func(how string, target protoMsg, prev protoMsg, prevBytes []byte, val protoMsg, valBytes []byte, valC, prevC string) {
+					prevStr := ""
+					if r.Violations() < 50 {
+						prevStr = fmt.Sprintf("%+v", prev)
+					}
+					r.Eval(1)
+					r.Count("reuse.checks", 1)
+					r.Count("reuse."+valC+"-into-"+prevC, 1)
+					if err := m.Unmarshal(target, valBytes); err != nil {
+						r.Violation(c.Idx, key("unmarshal-error"), fmt.Sprintf("%s: Unmarshal of %x into a reused object: %v", tname, valBytes, err), detail(map[string]interface{}{"bytes": vk.Hex(valBytes), "target": how}))
+						return
+					}
+					again, errA := m.Marshal(target)
+					if !val.Equal(target) || !target.Equal(val) || errA != nil || !bytes.Equal(again, valBytes) {
+						r.Violation(c.Idx, key("stale-content-after-decode-into-reused-object"),
+							fmt.Sprintf("%s: decoding %d bytes (%x) into an object that held another value (%s, its encoding had %d bytes) gives %+v instead of %+v; re-encoded %x", tname, len(valBytes), valBytes, how, len(prevBytes), target, val, again),
+							map[string]interface{}{"type": tname, "target_prepared_by": how, "decoded_bytes": vk.Hex(valBytes), "expected": fmt.Sprintf("%+v", val), "got": fmt.Sprintf("%+v", target), "previous_content": prevStr, "previous_bytes": vk.Hex(prevBytes), "value_class": valC, "previous_class": prevC})
+					}
+				}
+				// (a) the target was populated with the other value
+				reuse("populated", newOther(), other, bo, obj, b1, xc, oc)
+				// (a') the target received the other value by decoding
+				t2 := reflect.New(rt).Interface().(protoMsg)
+				if err := m.Unmarshal(t2, bo); err == nil {
+					reuse("decoded", t2, other, bo, obj, b1, xc, oc)
+					// ... and is used a third time, for the other value again
+					reuse("decoded-twice", t2, obj, b1, other, bo, oc, xc)
+				}
+				// (b) the other way round: the target holds this case's value (its separately allocated twin), the other value is decoded
+				reuse("populated", twin, obj, b1, other, bo, oc, xc)
+				if len(b1) == 0 && len(bo) > 0 || len(bo) == 0 && len(b1) > 0 {
+					zeroLenReuse.Store(tname, true)
+				}
+			}
+			if len(b1) == 0 {
+				zeroLenSeen.Store(tname, true)
+			}
+			r.Count("roundtrips."+tname, 1)
+			r.Count("value."+xc, 1)
+			r.Max("max_encoded_len", int64(len(b1)))
+			r.ShapeHash(tname, sig.String(), oc)
 			if r.NeedSample() && len(b1) < 60 && len(b1) > 10 && c.Idx%11 == 0 {
-				r.Sample(map[string]interface{}{"type": tname, "value": fmt.Sprintf("%+v", obj), "bytes": vk.Hex(b1)})
+				r.Sample(map[string]interface{}{"type": tname, "value": fmt.Sprintf("%+v", obj), "bytes": vk.Hex(b1), "reused_target_previous_bytes": vk.Hex(bo)})
 			}
 		})
 		if panicked {
 			r.Violation(c.Idx, key("panic"), fmt.Sprintf("%s: panic %v", tname, pv), detail(map[string]interface{}{"stack": stack}))
 		}
 	})
+	var zl, zr []string
+	for _, nme := range names {
+		if _, ok := zeroLenSeen.Load(nme); ok {
+			zl = append(zl, nme)
+		}
+		if _, ok := zeroLenReuse.Load(nme); ok {
+			zr = append(zr, nme)
+		}
+	}
+	r.Extra("types_with_zero_length_encoding_seen", len(zl))
+	r.Extra("types_with_zero_length_vs_nonempty_reuse_checked", len(zr))
+	var never []string
+	for _, nme := range names {
+		found := false
+		for _, z := range zl {
+			if z == nme {
+				found = true
+			}
+		}
+		if !found {
+			never = append(never, nme)
+		}
+	}
+	r.Extra("types_never_encoding_to_zero_length", never)
+	if r.ReplayCase < 0 && len(zr) < len(zl) {
+		r.Inconclusive(fmt.Sprintf("zero-length encodings were seen for %d types but the reused-target check met a zero-length / non-empty pair for only %d", len(zl), len(zr)))
+	}
 	r.Finish()
 }
